@@ -106,7 +106,12 @@ class Module:
         params = list(self._parameters.values())
         for m in self.submodules():
             params += m.parameters()
-        return params
+        # a parameter (or submodule) shared between names or parents is reported once
+        unique = []
+        for p in params:
+            if not any(p is q for q in unique):
+                unique.append(p)
+        return unique
     
     def submodules(self) -> list['Module']:
         return [m for m in self._submodules.values()]
